@@ -3,6 +3,7 @@ package sim
 import (
 	"crypto/sha256"
 	"fmt"
+	"io"
 	"io/fs"
 	"os"
 	"path/filepath"
@@ -103,7 +104,7 @@ func DirFiles(dir string) map[string]string {
 		return out
 	}
 	for _, e := range ents {
-		if e.IsDir() {
+		if e.IsDir() || e.Name() == "gengo.sum" {
 			continue
 		}
 		p := filepath.Join(dir, e.Name())
@@ -136,8 +137,20 @@ func sameFiles(a, b map[string]string) bool {
 
 // HashDir is the driver's own computation of a package directory hash
 // (x/mod dirhash, Hash1); ok=false when the directory cannot be hashed.
+// gengo.sum itself is not part of any package's content: for a package in the module root the file lies
+// inside the directory, and a hash covering the file that records it could never be stable.
 func HashDir(dir string) (string, bool) {
-	h, err := dirhash.HashDir(dir, "", dirhash.Hash1)
+	files, err := dirhash.DirFiles(dir, "")
+	if err != nil {
+		return "", false
+	}
+	var keep []string
+	for _, f := range files {
+		if f != "gengo.sum" {
+			keep = append(keep, f)
+		}
+	}
+	h, err := dirhash.Hash1(keep, func(name string) (io.ReadCloser, error) { return os.Open(filepath.Join(dir, name)) })
 	if err != nil {
 		return "", false
 	}
